@@ -24,15 +24,16 @@ def topBound : Nat := kindObj 0
 /-- the machine the translator's flags select: filter walk by index (the code now) or with foreach (the code before
     fix a0ef2da, model `runOld`), consuming or not, the source's EXCEPTION_MAX_DEPTH -/
 def machine : Prog → Nat → St → St × List Ev × Sig :=
-  runCfg CelloGen.Exn.catchWalksFilterWithForeachEq CelloGen.Exn.catchConsumes CelloGen.Exn.maxDepth
+  runCfgW harnessWorld CelloGen.Exn.catchWalksFilterWithForeachEq CelloGen.Exn.catchConsumes CelloGen.Exn.maxDepth
 
 def report (p : Prog) : IO (Nat × Bool) := do
   let (s, t, g) := machine p topBound St.init
-  let (rt, re) := eval p topBound
+  let (rt, re) := evalW harnessWorld p topBound
   IO.println s!"O trace={showTrace t} end={endOf g} depth={if g = .normal then toString s.depth else "-"}"
   -- reference outcome + whether the program meets the hypotheses of C07_current_source (then O and R must agree)
-  let hyp := inDomain p && decide (nest p ≤ CelloGen.Exn.maxDepth)
-  IO.println s!"R trace={showTrace rt} exc={match re with | none => "none" | some e => if e = 0 then "NULL" else toString (e - 1)} nest={nest p} dom={inDomain p} nodup={nodupFilters p} hyp={hyp}"
+  -- (C07_current_source_any_objects: inDomain, nesting fits, no filter walk of the reference run meets a clash)
+  let hyp := inDomain p && decide (nest p ≤ CelloGen.Exn.maxDepth) && noClash harnessWorld p topBound
+  IO.println s!"R trace={showTrace rt} exc={match re with | none => "none" | some e => if e = 0 then "NULL" else toString (e - 1)} nest={nest p} dom={inDomain p} nodup={nodupFilters p} noclash={noClash harnessWorld p topBound} types={allTypes harnessWorld p} hyp={hyp}"
   return ((t.filter (fun e => match e with | .handler _ => true | _ => false)).length, g = .fatal)
 
 def main (args : List String) : IO Unit := do
@@ -61,5 +62,9 @@ def main (args : List String) : IO Unit := do
           if f then nFatal := nFatal + 1
         | _, _, _, _, _, _ => IO.println "O bad-op"
       | _ => IO.println "O bad-op"
+    else if l.trimAscii.toString = "A" then
+      -- the documented accessors exception_object() / exception_message(): defined in the source or not
+      let d (b : Bool) : String := if b then "defined" else "undefined"
+      IO.println s!"O accessors object={d CelloGen.Exn.exceptionObjectDefined} message={d CelloGen.Exn.exceptionMessageDefined}"
     else IO.println "O bad-op"
   IO.println s!"S programs={nProg} handlers={nHandlers} fatal={nFatal}"
